@@ -1,5 +1,9 @@
 import Proofs.Machine.BodyOrder
 import Proofs.Machine.BodyText
+import Proofs.Machine.BodyPlain
+import Proofs.Machine.BodyCombinedText
+import Proofs.Machine.BodyConflict
+import Proofs.Machine.BodyConflictAll
 /-!
 C01 — every hunk line is shown exactly once, in order, with its text intact (unified view).
 
@@ -193,5 +197,263 @@ theorem conflict_region_shows_ancestor_twice :
                     "++||||||| base", "++anc", "++=======", " +theirs", "++>>>>>>> other"].map mkL) with
      | .ok m => ((m.out.filter (fun r => isBody r.kind)).map (·.src)).count 7
      | .error _ => 0) = 2 := by decide
+
+-- plain `diff -u` ---------------------------------------------------------------------
+
+open Machine.Plain in
+/-- **`plain_diff_hunk_rows`** (whole runs, plain `diff -u` input, every configuration). `PlainInput ls`:
+the first line tells delta the input is plain diff output (`detect_source`) and a reference reading
+of plain `diff -u` that is independent of the machine (`plainNext`: sections `--- ` / `+++ `, hunks
+whose header announces the true number of old-file lines, `diff -u …` command lines, `Only in …`
+lines) accepts the input. Then the hunk-line rows of delta's output are exactly the lines that
+reading takes for hunk lines, in input order, each shown by its `plainRow` (kind by the first
+column, that column removed, tabs expanded). In particular a removed line whose text starts with
+`-- ` (input `--- …`) and an added line `++ …` (input `+++ …`) inside a hunk are shown as hunk
+lines, and the `--- ` / `+++ ` lines of the next file section are not.
+Behind it (`Machine.Plain.Sim`): inside a hunk `m.counter` is the number of old-file lines still
+expected; between sections it is 0. -/
+theorem plain_diff_hunk_rows {cfg : Cfg} {ls : List L} {m : M} (hin : PlainInput ls) (e : run cfg ls = .ok m) :
+    m.out.filter (fun r => isBody r.kind) = plainRows cfg .top 0 ls :=
+  run_plain_rows hin e
+
+open Machine.Plain in
+/-- **`plain_diff_hunk_line_shown_exactly_once`**: a line of a plain `diff -u` input, whatever
+precedes (`pre`) and follows (`post`) it: if the reference reading (in state `s` after `pre`) takes
+it for a hunk line (`b = true`) it has exactly one hunk-line row in the output, and that row is
+`plainRow`; if it takes it for a `--- ` / `+++ ` / `@@` / `diff` / `Only in` line, it has none. -/
+theorem plain_diff_hunk_line_shown_exactly_once {cfg : Cfg} {pre post : List L} {l : L} {s s' : PS} {b : Bool} {m : M}
+    (hin : PlainInput (pre ++ l :: post)) (hpre : plainAfter .top pre = some s)
+    (hn : plainNext s l = some (s', b)) (e : run cfg (pre ++ l :: post) = .ok m) :
+    ((m.out.filter (fun r => isBody r.kind)).map (·.src)).count pre.length = (if b then 1 else 0) ∧
+    (m.out.filter (fun r => isBody r.kind)).filter (fun r => r.src = pre.length) =
+      (if b then [plainRow cfg l pre.length] else []) :=
+  ⟨run_plain_line_count hin hpre hn e, run_plain_line hin hpre hn e⟩
+
+open Machine.Plain in
+/-- **`plain_diff_counter_invariant`** (one input line). `Sim s m`: the source is plain diff; between
+sections (`s = top`, `afterMinus`) the minus-line counter is 0 — a `--- ` line is a file header —; inside
+a hunk (`s = hunk rem`) `m.counter = rem`, the number of old-file lines still expected, and the state is
+a unified hunk state. One line the reference reading accepts keeps this relation, advances the line
+count, and adds exactly the row `plainRow` to the hunk-line rows when the reading says "hunk line"
+(`b = true`), nothing otherwise. -/
+theorem plain_diff_counter_invariant {cfg : Cfg} {s s' : PS} {b : Bool} {m m' : M} {l : L}
+    (hs : Sim s (stepInit m l)) (g : Good m) (hn : plainNext s l = some (s', b)) (e : step cfg m l = .ok m') :
+    Sim s' m' ∧ m'.n = m.n + 1 ∧ bodyTL m' = bodyTL m ++ (if b then [plainRow cfg l m.n] else []) :=
+  step_sim hs g hn e
+
+open Machine.Plain in
+/-- **`plain_hunk_body_line_claimed`**: in a plain diff, in a unified hunk state, a possible hunk-body
+line (not a commit line, not a 40-hex submodule line) — a `--- …` line as long as the counter is
+positive — is claimed by `handle_hunk_line` and by no handler before it. -/
+theorem plain_hunk_body_line_claimed (cfg : Cfg) (m : M) (l : L) (hsrc : m.source = .diffUnified)
+    (hst : uniHunk m.st = true) (hb : l.text.head?.all bodyChar = true) (hc : l.commitRe = false)
+    (hsub : l.submodule = none) (hcnt : isDashes l = true → 0 < m.counter) :
+    chain cfg l Generated.handlerOrder m =
+      (match handleHunkLine cfg m l with
+       | .ok (_, m') => .ok m'
+       | .error e => .error e) :=
+  chain_body cfg m l hsrc hst hb hc hsub hcnt
+
+/-- two concatenated plain diffs; the first hunk contains the removed line `-- a comment` (input
+`--- a comment`) and the added line `++ an added line`; the second section starts at line 8 -/
+def plainSample : List L :=
+  ["--- a.lua", "+++ b.lua", "@@ -1,3 +1,3 @@", " ctx", "--- a comment", "+++ an added line", "-x", "+y",
+   "--- c.lua", "+++ d.lua", "@@ -1 +1,2 @@", "-p", "+q", "+++ r"].map mkL
+
+example : Machine.Plain.plainAccepts .top plainSample = true := by decide
+example : detectSource (mkL "--- a.lua").text = .diffUnified := by decide
+/-- line 4 (`--- a comment`) is read as a hunk line, in a hunk with 2 old-file lines outstanding … -/
+example : Machine.Plain.plainAfter .top (plainSample.take 4) = some (.hunk 2) := by decide
+example : Machine.Plain.plainNext (.hunk 2) (mkL "--- a comment") = some (.hunk 1, true) := by decide
+example : Machine.Plain.plainRow {} (mkL "--- a comment") 4 = { kind := .minus, text := "-- a comment".toList, src := 4 } := by
+  decide
+/-- … line 8 (`--- c.lua`), met when the 3 announced old-file lines have been seen, as a file header -/
+example : Machine.Plain.plainAfter .top (plainSample.take 8) = some (.hunk 0) := by decide
+example : Machine.Plain.plainNext (.hunk 0) (mkL "--- c.lua") = some (.afterMinus, false) := by decide
+/-- the invariant on this input: after line 4 one old-file line is outstanding and the counter is 1 -/
+example : (match runFrom {} {} (plainSample.take 5) with
+    | .ok mi => mi.counter == 1 && Machine.Plain.uniHunk mi.st && mi.source == .diffUnified
+    | .error _ => false) = true := by decide
+/-- what the theorem says for this input -/
+example : (match run {} plainSample with
+    | .ok m => (m.out.filter (fun r => isBody r.kind)).map (fun r => (r.src, r.kind)) ==
+        [(3, .zero), (4, .minus), (5, .plus), (6, .minus), (7, .plus), (11, .minus), (12, .plus), (13, .plus)]
+    | .error _ => false) = true := by decide
+
+/-- "announces the true number of old-file lines" is part of what the reference reading — and delta —
+must assume: the format has no other section mark. With a header that under-announces (`-1,1` for two
+removed lines) the second removed line `--- y` is read, by both, as a file header, not as a hunk line. -/
+theorem plain_diff_lying_header_loses_line :
+    (match run {} (["--- a", "+++ b", "@@ -1,1 +1,0 @@", "-x", "--- y"].map mkL) with
+     | .ok m => (m.out.filter (fun r => isBody r.kind)).map (·.src)
+     | .error _ => []) = [3] := by decide
+
+/-- FINDING (confirmed on the binary, see notes/S3-c01-plain-conflict.md): an EMPTY line standing for
+a blank unchanged line (`diff -u --suppress-blank-empty`) is not counted as an old-file line, so the
+counter stays above 0 and the `--- c` / `+++ d` lines of the next section are shown as hunk lines
+(rows 7 and 8); the reference reading rejects such input. -/
+theorem plain_diff_empty_context_line_not_counted :
+    Machine.Plain.plainAccepts .top
+      (["--- a", "+++ b", "@@ -1,3 +1,3 @@", " x", "", "-old", "+new", "--- c", "+++ d", "@@ -1 +1 @@", "-p", "+q"].map mkL)
+      = false ∧
+    (match run {} (["--- a", "+++ b", "@@ -1,3 +1,3 @@", " x", "", "-old", "+new", "--- c", "+++ d", "@@ -1 +1 @@", "-p", "+q"].map mkL) with
+     | .ok m => (m.out.filter (fun r => isBody r.kind)).map (·.src)
+     | .error _ => []) = [3, 4, 5, 6, 7, 8, 10, 11] := by decide
+
+/-- the bound `< 2 ^ 63` in `announcedOld` is needed: a larger announced length does not fit the
+counter's `isize`, `count_from` then switches the counter off, and a removed line `--- x` of that hunk
+is taken for a file header (no hunk-line row) -/
+example : Machine.Plain.announcedOld (mkL "@@ -1,9223372036854775808 +1 @@") = none := by decide
+example : (match run {} (["--- a", "+++ b", "@@ -1,9223372036854775808 +1 @@", "--- x"].map mkL) with
+     | .ok m => (m.out.filter (fun r => isBody r.kind)).map (·.src)
+     | .error _ => [0]) = [] := by decide
+
+-- text of a combined-diff hunk line --------------------------------------------------------
+
+/-- **`hunk_line_text_intact_combined`** (whole runs): in a hunk of a combined diff with `n` parents
+(git source, outside conflict regions) a possible hunk-body line has exactly one hunk-line row, and
+it is `expectedRowCombined`: kind by the `n` prefix columns (`combinedLineKind`: the first `-` / `+`
+among them decides, all blank = unchanged, otherwise — e.g. `\ No newline at end of file` — the raw
+line is shown), text = the prefix columns (always kept in a combined diff, whatever
+`keep-plus-minus-markers` says) followed by the rest of the line with tabs expanded
+(`expectedRowCombined_text`) — for every configuration, whatever precedes and follows the line. -/
+theorem hunk_line_text_intact_combined {cfg : Cfg} {pre post : List L} {l : L} {mi m : M} {n : Nat}
+    (hmc : ∀ x ∈ pre ++ l :: post, startsWith x.text Generated.Markers.mcBegin = false)
+    (ei : runFrom cfg {} pre = .ok mi) (hsrc : mi.source = .gitDiff)
+    (hdt : hunkDiffType mi.st = some (.combined (.number n) false)) (hb : HunkBody l)
+    (hsub : l.submodule = none) (e : run cfg (pre ++ l :: post) = .ok m) :
+    (m.out.filter (fun r => isBody r.kind)).filter (fun r => r.src = pre.length) =
+      [expectedRowCombined cfg n l pre.length] :=
+  run_combined_line_row hmc ei hsrc hdt hb hsub e
+
+/-- … and for ASCII prefix columns that text is: prefix columns ++ expand (rest of the line) -/
+theorem combined_row_text {cfg : Cfg} {n : Nat} {l : L} {idx : Nat} {k : LineKind} (hne : l.text ≠ [])
+    (hascii : (l.text.take n).all (fun c => c.toNat < 128) = true)
+    (hk : combinedLineKind (l.text.take n) = some k) :
+    expectedRowCombined cfg n l idx =
+      { kind := k.rowKind, text := l.text.take n ++ Text.expand cfg.tab (l.text.drop n), src := idx } :=
+  expectedRowCombined_text hne hascii hk
+
+example : (match runFrom {} {} combinedPre with
+    | .ok mi => mi.source == .gitDiff && hunkDiffType mi.st == some (.combined (.number 2) false)
+    | .error _ => false) = true := by decide
+example : expectedRowCombined {} 2 (mkL " +a\tb") 7 = { kind := .plus, text := " +a        b".toList, src := 7 } := by decide
+example : expectedRowCombined { keepMarkers := true } 2 (mkL "- old") 3 = { kind := .minus, text := "- old".toList, src := 3 } := by
+  decide
+example : expectedRowCombined {} 2 (mkL "\\ No newline at end of file") 3 =
+    { kind := .other, text := "\\ No newline at end of file".toList, src := 3 } := by decide
+
+-- merge-conflict regions ----------------------------------------------------------------------
+
+open Machine.Conflict in
+/-- **`conflict_region_two_comparisons`** (whole runs; every configuration that handles conflict
+regions: not `--color-only`, `merge-conflicts` on). Input `pre ++ region ++ post` where `pre` leaves
+delta in a hunk of a combined diff (git source; `n` prefix columns) with empty conflict buffers and
+`region` is a well-formed conflict region (`Region.wf`: `++<<<<<<< name`, our lines, optionally
+`++||||||| name` and the ancestor lines, `++=======`, their lines, `++>>>>>>> name`; no line inside a
+section is taken for a marker ending it). Then the hunk-line rows of the output are: the rows shown
+for `pre`, unchanged and first; then `regionRows` = the ancestor lines and our lines (first
+comparison) followed by the ancestor lines and their lines (second comparison), each line's text
+intact (`mcLine`: prefix columns removed, tabs expanded, `-` / `+` in front when markers are
+requested), in input order within each comparison; then whatever `post` adds. For a two-way region
+(no `|||||||`) there are no ancestor rows. -/
+theorem conflict_region_two_comparisons {cfg : Cfg} {pre post : List L} {r : Region} {mi m : M} {mp : MergeParents}
+    {n : Nat} (hcfg : McOn cfg) (ei : runFrom cfg {} pre = .ok mi) (hsrc : mi.source = .gitDiff)
+    (hst : hunkCombinedParents mi.st = some mp) (hn : nParents (.combined mp true) = .ok n)
+    (hempty : mi.mcOurs = [] ∧ mi.mcAnc = [] ∧ mi.mcTheirs = []) (hwf : r.wf = true)
+    (e : run cfg (pre ++ (r.lines ++ post)) = .ok m) :
+    ∃ after, m.out.filter (fun x => isBody x.kind) = bodyTL mi ++ regionRows cfg n pre.length r ++ after :=
+  run_conflict_region hcfg ei hsrc hst hn hempty hwf e
+
+open Machine.Conflict in
+/-- **`conflict_region_line_counts`** (same hypotheses; `pre` and `post` arbitrary, they may contain any
+number of other regions, terminated or not): an input index inside the region is the `src` of exactly
+two hunk-line rows of the output if it is an ancestor line, of exactly one if it is one of our / their
+lines, of none if it is one of the four marker lines. (Rows before the region are rows of earlier lines,
+rows after it rows of later lines: `Machine.Conflict.run_conflict_region_all`; behind it `step_srcs`: for
+every input, the hunk-line rows one input line adds carry its own index or that of a buffered
+conflict line.) -/
+theorem conflict_region_line_counts {cfg : Cfg} {pre post : List L} {r : Region} {mi m : M} {mp : MergeParents} {n : Nat}
+    (hcfg : McOn cfg) (ei : runFrom cfg {} pre = .ok mi) (hsrc : mi.source = .gitDiff)
+    (hst : hunkCombinedParents mi.st = some mp) (hn : nParents (.combined mp true) = .ok n)
+    (hempty : mi.mcOurs = [] ∧ mi.mcAnc = [] ∧ mi.mcTheirs = []) (hwf : r.wf = true)
+    (e : run cfg (pre ++ (r.lines ++ post)) = .ok m) (j : Nat) (hj1 : pre.length ≤ j)
+    (hj2 : j < pre.length + r.lines.length) :
+    ((m.out.filter (fun x => isBody x.kind)).map (·.src)).count j =
+      (if pre.length + 1 + r.ours.length + 1 ≤ j ∧ j < pre.length + 1 + r.ours.length + 1 + r.ancLines.length then 2
+       else if pre.length + 1 ≤ j ∧ j < pre.length + 1 + r.ours.length then 1
+       else if pre.length + 1 + r.ours.length + r.ancPart.length + 1 ≤ j ∧
+          j < pre.length + 1 + r.ours.length + r.ancPart.length + 1 + r.theirs.length then 1
+       else 0) :=
+  run_conflict_region_counts_all hcfg ei hsrc hst hn hempty hwf e j hj1 hj2
+
+/-- **`hunk_row_shows_an_input_line`** (every input — conflict regions included —, every configuration):
+each hunk-line row of the output is attributed to a line of the input. -/
+theorem hunk_row_shows_an_input_line {cfg : Cfg} {ls : List L} {m : M} (e : run cfg ls = .ok m) :
+    ∀ r ∈ m.out.filter (fun x => isBody x.kind), r.src < ls.length :=
+  Machine.Conflict.run_rows_below e
+
+/-- a diff3-style region (lines 6–13 after `conflictPre`) and a two-way one -/
+def region3 : Machine.Conflict.Region :=
+  { start := mkL "++<<<<<<< HEAD", ours := [mkL "+ ours1", mkL "+ ours\t2"],
+    anc := some (mkL "++||||||| base", [mkL "++anc"]), sep := mkL "++=======", theirs := [mkL " +theirs"],
+    fin := mkL "++>>>>>>> other" }
+def region2 : Machine.Conflict.Region :=
+  { start := mkL "++<<<<<<< HEAD", ours := [mkL "+ ours1"], anc := none, sep := mkL "++=======",
+    theirs := [mkL " +theirs"], fin := mkL "++>>>>>>> other" }
+def conflictPre : List L := combinedPre ++ [mkL "  ctx"]
+
+example : region3.wf = true := by decide
+example : region2.wf = true := by decide
+example : (match runFrom {} {} conflictPre with
+    | .ok mi => mi.source == .gitDiff && hunkCombinedParents mi.st == some (.pre [' ', ' ']) &&
+        mi.mcOurs.isEmpty && mi.mcAnc.isEmpty && mi.mcTheirs.isEmpty
+    | .error _ => false) = true := by decide
+example : nParents (.combined (.pre [' ', ' ']) true) = .ok 2 := rfl
+/-- what `regionRows` is here: ancestor line 10, our lines 7 and 8, ancestor line 10 again, their line 12 -/
+example : (Machine.Conflict.regionRows {} 2 6 region3).map (fun r => (r.src, r.kind, String.ofList r.text)) =
+    [(10, .minus, "anc"), (7, .plus, "ours1"), (8, .plus, "ours        2"), (10, .minus, "anc"), (12, .plus, "theirs")] := by
+  decide
+example : (Machine.Conflict.regionRows {} 2 6 region2).map (fun r => (r.src, r.kind, String.ofList r.text)) =
+    [(7, .plus, "ours1"), (9, .plus, "theirs")] := by decide
+example : (match run {} (conflictPre ++ (region3.lines ++ [mkL "  after"])) with
+    | .ok m => (m.out.filter (fun r => isBody r.kind)).map (·.src) == [5, 10, 7, 8, 10, 12, 14]
+    | .error _ => false) = true := by decide
+
+/-- two regions in one input: the counts hold for the first (lines 6–13) although another follows -/
+example : (match run {} (conflictPre ++ (region3.lines ++ (mkL "  between" :: region2.lines))) with
+    | .ok m => (m.out.filter (fun r => isBody r.kind)).map (·.src) == [5, 10, 7, 8, 10, 12, 14, 16, 18]
+    | .error _ => false) = true := by decide
+
+/-- `McOn` is needed: under `--color-only` the lines of a region are ordinary hunk lines, one row each -/
+example : (match run { colorOnly := true } (conflictPre ++ region2.lines) with
+     | .ok m => (m.out.filter (fun r => isBody r.kind)).map (·.src)
+     | .error _ => []) = [5, 6, 7, 8, 9, 10] := by decide
+/-- `Region.wf` is needed: an end marker without a name is not an end marker (`parse_merge_marker`),
+the region then never ends and nothing of it — nor of what follows — is shown; a line of "ours" that
+looks like the end marker ends the region early -/
+example : ({ region2 with fin := mkL "++>>>>>>>" } : Machine.Conflict.Region).wf = false := by decide
+example : (match run {} (conflictPre ++ ({ region2 with fin := mkL "++>>>>>>>" } : Machine.Conflict.Region).lines ++
+        [mkL "  after"]) with
+     | .ok m => (m.out.filter (fun r => isBody r.kind)).map (·.src)
+     | .error _ => []) = [5] := by decide
+example : ({ region2 with ours := [mkL "++>>>>>>> x"] } : Machine.Conflict.Region).wf = false := by decide
+
+/-- FINDING (confirmed on the binary): a conflict region that is not terminated — end of input, or a
+`diff ` line inside it — is never painted: its lines (here 6 and 7) have no row at all … -/
+theorem unterminated_conflict_region_is_dropped :
+    (match run {} (conflictPre ++ [mkL "++<<<<<<< HEAD", mkL "+ dropped"]) with
+     | .ok m => (m.out.filter (fun r => isBody r.kind)).map (·.src)
+     | .error _ => []) = [5] := by decide
+
+/-- … and they are still in the conflict buffers when the next region — of another file — begins, and
+are shown there (line 7 of file x among "our" lines of file y): the hypothesis `hempty` of
+`conflict_region_two_comparisons` is needed. `enter_merge_conflict` does not clear
+`merge_conflict_lines`. -/
+theorem stale_conflict_lines_shown_in_next_region :
+    (match run {} (conflictPre ++ [mkL "++<<<<<<< HEAD", mkL "+ dropped"] ++
+        ["diff --cc y", "index 1,2..3", "--- a/y", "+++ b/y", "@@@ -1,2 -1,2 +1,2 @@@"].map mkL ++ region2.lines) with
+     | .ok m => (m.out.filter (fun r => isBody r.kind)).map (·.src)
+     | .error _ => []) = [5, 7, 14, 16] := by decide
 
 end C01
